@@ -30,6 +30,7 @@ def check(repo, tier="quick"):
         "code reachable from parse_stream writes module-level, class-level, function-attribute or default-argument "
         "state, nor stores a shared module-level object into state; every sequence boundary is byte aligned."
     )
+    res.rule("C10.i", "bug patterns with zero expected instances in this property's modules: swapped same-named arguments, lower-bound guard followed by a decrement of the guarded value, presence of a dictionary entry decided by truthiness")
     res.rule("C10.a", "reset_state(state) dominates every state access and every call in parse_sequence (validator and serdes flavours)")
     res.rule("C10.b", "reset_state deletes every key not in retained_state_fields and does nothing else")
     res.rule("C10.c", "retained_state_fields is a subset of {keys stored by decoder/io.py} + {output callback}, keeps the callback, and keeps every I/O key read before it is written")
@@ -47,6 +48,10 @@ def check(repo, tier="quick"):
     rule_fixture(repo, res)
     rule_g(repo, res)
     rule_h(repo, res)
+    from .. import lints as _lints
+
+    _lints.rule(repo, res, "C10.i", ['decoder.stream', 'decoder.io', 'pseudocode.state', 'decoder.sequence_header', 'decoder.picture_syntax', 'decoder.fragment_syntax', 'decoder.transform_data_syntax'])
+    res.floor("C10.i", 8)
     res.floor("C10.g", 1)
     res.floor("C10.h", 2)
     res.floor("C10.a", 2)
